@@ -425,6 +425,10 @@ theorem bindObject_N {m : XmlMeta} {var : XmlVar} (hf : ElemFactsN m var)
         exact ⟨false, by simp [bindObject, hpw, bindObject.go, findChildren_N hf hc hw,
           VarCore.isWildcard, hf.isElem, hb, hp, bind, Except.bind, pure, Except.pure]⟩
 
+/-- the `wrappers` dict after `bind_objects` -/
+def wsFinal (ws : Ws) (entries : List (XmlVar × Val)) : Ws :=
+  entries.foldl (fun ws en => (popWrapper ws (some en.1.qname)).2) ws
+
 theorem bindObjects_genN {m : XmlMeta}
     (step : Params × Ws → Option QN × Val → Except Err (Params × Ws))
     (hstep : ∀ (P : Params) (ws : Ws) (var : XmlVar) (y : Val), ElemFactsN m var →
@@ -433,18 +437,16 @@ theorem bindObjects_genN {m : XmlMeta}
         .ok ((bindVar P var y).2, (popWrapper ws (some var.qname)).2)) :
     ∀ (entries : List (XmlVar × Val)) (P : Params) (ws : Ws), (∀ en ∈ entries, ElemFactsN m en.1) →
       WsOK ws entries →
-      ∃ ws', (entries.map fun en => (some en.1.qname, en.2)).foldlM step (P, ws) =
-        .ok (bindEntries P entries, ws') := by
+      (entries.map fun en => (some en.1.qname, en.2)).foldlM step (P, ws) =
+        .ok (bindEntries P entries, wsFinal ws entries) := by
   intro entries
   induction entries with
-  | nil => intro P ws _ _; exact ⟨ws, rfl⟩
+  | nil => intro P ws _ _; rfl
   | cons en t ih =>
     intro P ws h hws
     obtain ⟨var, y⟩ := en
-    obtain ⟨ws', hws'⟩ := ih (bindVar P var y).2 (popWrapper ws (some var.qname)).2
-      (fun en' he => h en' (by simp [he])) hws.2
-    refine ⟨ws', ?_⟩
     simp only [List.map_cons, List.foldlM_cons, hstep P ws var y (h (var, y) (by simp)) hws.1]
-    exact hws'
+    exact ih (bindVar P var y).2 (popWrapper ws (some var.qname)).2
+      (fun en' he => h en' (by simp [he])) hws.2
 
 end Proofs.C01
